@@ -40,15 +40,21 @@ func (c *Float) GetValue() float64 {
 }
 
 func (c *Float) GetMinValue() float64 {
-	return c.MinValue.(float64)
+	// nil (no such bound declared) reads as the zero value
+	v, _ := c.MinValue.(float64)
+	return v
 }
 
 func (c *Float) GetMaxValue() float64 {
-	return c.MaxValue.(float64)
+	// nil (no such bound declared) reads as the zero value
+	v, _ := c.MaxValue.(float64)
+	return v
 }
 
 func (c *Float) GetStepValue() float64 {
-	return c.StepValue.(float64)
+	// nil (no such bound declared) reads as the zero value
+	v, _ := c.StepValue.(float64)
+	return v
 }
 
 // OnValueRemoteGet calls fn when the value was read by a client.
